@@ -23,7 +23,8 @@ def _probe():
     f = sys._getframe(1)
     while f is not None and f.f_code.co_filename.endswith(API_SUFFIX):
         f = f.f_back
-    return '__autograph_generated_file' in f.f_code.co_filename
+    # the recipes' own code lives in this file, in '<string>' (exec) or in '<c13-no-such-file>'; anything else is generated
+    return f.f_code.co_filename not in (__file__, '<string>', '<c13-no-such-file>')
 
 
 _probe.autograph_info__ = None   # an artifact: the wrapper never converts the probe itself
@@ -303,6 +304,31 @@ class WithMeta(metaclass=Meta):
 
 class PStr(str):
     _IS_TENSORFLOW_PLUGIN = True
+
+
+def posonly(a, /, b=2, *, c=3):
+    conv = _probe()
+    if a:
+        r = ('T', a, b, c)
+    else:
+        r = ('F', a, b, c)
+    GLOG.append(('run', conv) + r)
+    return r
+
+
+class PM(object):
+    def __init__(self, log):
+        self.log = log
+
+    def _m(self, a=0, b=2, *rest, k=3, **kw):
+        conv = _probe()
+        if a:
+            r = ('T', 'SELF', a, b, rest, k, sorted(kw.items()))
+        else:
+            r = ('F', 'SELF', a, b, rest, k, sorted(kw.items()))
+        self.log.append(('run', conv) + r)
+        return r
+    pm = functools.partialmethod(_m, 'pm1', k='pmk')
 '''
 
 NOSOURCE_SRC = '''
@@ -375,7 +401,8 @@ def default_facts(**kw):
 
 class Built(object):
     def __init__(self, f, facts, self_val=None, binds=False, loggable=True, sig='std', target_ents=None, log=None,
-                 needs_self=None, result_kind='plain', note=''):
+                 needs_self=None, result_kind='plain', note='', prebuilt_partial=False):
+        self.prebuilt_partial = prebuilt_partial   # b.f is itself a functools.partial built by the recipe
         self.f, self.facts, self.self_val, self.binds = f, facts, self_val, binds
         self.loggable, self.sig, self.log = loggable, sig, log
         self.target_ents = target_ents if target_ents is not None else [f]
@@ -561,6 +588,17 @@ def build(name, env, log):
         return Built(o._replace, default_facts(kind='method', ent=method_ent(['collections'], M, definer_nt=True)),
                      self_val='SELF', binds=True, loggable=False, sig=[((), {'x': 5}), ((), None), ((), {})], result_kind='repr')
 
+    if base == 'partialmethod':   # functools.partialmethod: attribute access gives a functools.partial over the bound method
+        o = Z.PM(log)
+        return Built(o.pm, default_facts(kind='method', ent=method_ent(M, M)), self_val='SELF', binds=True,
+                     target_ents=[Z.PM._m], prebuilt_partial=True)
+    if base == 'posonly':         # positional-only and keyword-only parameters
+        return Built(Z.posonly, default_facts(ent=ent(mod=M)), log=Z.GLOG, loggable=False, result_kind='plain',
+                     sig=[(('v1',), None), (('v1', 'v2'), {'c': 'vc'}), (('',), {'b': 'vb'}), ((), {'a': 'bad'})])
+    if base == 'staticmethod_obj':   # a staticmethod object is callable (3.10+), through a native __call__
+        o = staticmethod(Z.make_fn(log))
+        return Built(o, default_facts(kind='callableObject', has_code=False, cacheable=cacheable_by_python(o), ent=ent(mod=M)))
+
     # ---- callable objects
     if base == 'callobj':
         o = Z.C(log, 'OBJ')
@@ -723,6 +761,7 @@ def rule_test_modules(rule_prefixes):
 BASES_STATIC = [
     'fn', 'gfn', 'raiser', 'lambda', 'fn_unloadedmod', 'genfn', 'forelse', 'nosource', 'execfn', 'decorated', 'lru', 'dnc',
     'tograph', 'convertwrapped', 'fn_selfattr', 'tfplugin',
+    'partialmethod', 'posonly', 'staticmethod_obj',
     'bound', 'unbound', 'classm', 'classm_inst', 'staticm', 'bound_gen', 'bound_testcase', 'nt_sub_method', 'nt_inherited',
     'bound_allowcls:malt.c13fake', 'bound_sub_inherit:malt.c13fake', 'bound_sub_override:malt.c13fake',
     'callobj', 'callobj_allowcls:malt.c13fake', 'callobj_allowcall:malt.c13fake', 'callobj_gen', 'callobj_forelse',
